@@ -255,6 +255,18 @@ pub fn cases_for(prop: &str, tier: &str, seed: u64, shard: (usize, usize)) -> (V
                         doc: Some(d.print()), extra: vec![all.clone()], note: String::new() });
                 }
             }
+            // small exhaustive merge families whose valid members are the point: not sampled
+            {
+                let synth = pool.iter().position(|s| s.name == "synthetic").unwrap();
+                let mut small: Vec<GDoc> = crate::families::merge_untyped_wrapper_cases();
+                small.extend(crate::families::merge_argument_order_cases());
+                for (i, d) in small.into_iter().enumerate() {
+                    if i % shard.1 == shard.0 {
+                        cases.push(Case { id: format!("ms{}x{}", shard.0, i), family: "merge-small-families".into(), schema: synth, op: "validate".into(),
+                            doc: Some(d.print()), extra: vec![all.clone()], note: String::new() });
+                    }
+                }
+            }
             // the targeted families of the rule properties (their spec-valid members count here)
             for fp in ["C04", "C05", "C06", "C07", "C08", "C09", "C10", "C11", "GRAPH"] {
                 for mut c in exhaustive_family(fp, tier, &mut rng, shard, &pool) {
@@ -412,6 +424,8 @@ pub fn cases_for(prop: &str, tier: &str, seed: u64, shard: (usize, usize)) -> (V
                     }
                 }
                 corpus.extend(crate::families::variable_site_cases());
+                // valid multi-operation documents over fragment DAGs with variables (diamonds, shared sub-fragments)
+                corpus.extend(crate::families::valid_variable_dag_cases(&mut rng, budget(tier, 120, 2000)));
                 let mut j = 0usize;
                 for gdoc in corpus {
                     for kind in ["perm-selections", "perm-arguments", "perm-definitions", "inline-spread", "wrap-inline"] {
@@ -1151,6 +1165,9 @@ pub fn exhaustive_family(prop: &str, tier: &str, rng: &mut Rng, shard: (usize, u
             for d in merge_argument_order_cases() {
                 docs.push(("merge-argument-order".to_string(), d.print()));
             }
+            for d in merge_untyped_wrapper_cases() {
+                docs.push(("merge-untyped-wrappers".to_string(), d.print()));
+            }
         }
         "C10" => {
             for d in directive_mix_cases(rng, budget(tier, 2500, 50000)) {
@@ -1245,6 +1262,13 @@ pub fn exhaustive_family(prop: &str, tier: &str, rng: &mut Rng, shard: (usize, u
                     continue;
                 }
                 out.push(Case { id: format!("sl{}x{}", shard.0, i), family: "subscription-graphs-abstract".into(), schema: lonely, op: "validate".into(), doc: Some(d.print()), extra: vec![], note: String::new() });
+            }
+            for d in subscription_nested_clean_cases() {
+                i += 1;
+                if i % shard.1 != shard.0 {
+                    continue;
+                }
+                out.push(Case { id: format!("sn{}x{}", shard.0, i), family: "subscription-nested-clean".into(), schema: lonely, op: "validate".into(), doc: Some(d.print()), extra: vec![], note: String::new() });
             }
         }
     }
